@@ -210,6 +210,57 @@ fn run_serial(mode: Mode, cbdur_us: u64) -> (String, String, String, String) {
     )
 }
 
+/// C05 during the replay of cached start-up events: datagrams and a connection are cached before the
+/// listener call, signals (immediate and timed) are already queued, the callback takes 20 ms; no two
+/// invocations may overlap, in any mode
+fn run_serial_cached(mode: Mode) -> (String, String, String, String) {
+    let (handler, listener) = node::split::<u64>();
+    let (_l2, a_udp) = handler.network().listen(Transport::Udp, "127.0.0.1:0").unwrap();
+    let (_l1, a_tcp) = handler.network().listen(Transport::FramedTcp, "127.0.0.1:0").unwrap();
+    let u = UdpSocket::bind("127.0.0.1:0").unwrap();
+    for i in 0..5u8 {
+        let _ = u.send_to(&[i; 8], a_udp);
+    }
+    let mut conn = TcpStream::connect(a_tcp).ok();
+    if let Some(c) = conn.as_mut() {
+        let _ = c.write_all(&framed(&[1, 2, 3]));
+    }
+    std::thread::sleep(Duration::from_millis(150));
+    handler.signals().send(1);
+    handler.signals().send_with_priority(2);
+    handler.signals().send_with_timer(3, Duration::from_millis(30));
+    handler.signals().send_with_timer(4, Duration::from_millis(70));
+    let inside = Arc::new(AtomicBool::new(false));
+    let overlaps = Arc::new(AtomicUsize::new(0));
+    let count = Arc::new(AtomicUsize::new(0));
+    let (i2, o2, c2) = (inside.clone(), overlaps.clone(), count.clone());
+    let running = start(mode, &handler, listener, move |_e| {
+        if i2.swap(true, Ordering::SeqCst) {
+            o2.fetch_add(1, Ordering::SeqCst);
+        }
+        c2.fetch_add(1, Ordering::SeqCst);
+        std::thread::sleep(Duration::from_millis(20));
+        i2.store(false, Ordering::SeqCst);
+    });
+    let deadline = Instant::now() + Duration::from_secs(3);
+    while count.load(Ordering::SeqCst) < 11 && Instant::now() < deadline {
+        std::thread::sleep(Duration::from_millis(10));
+    }
+    std::thread::sleep(Duration::from_millis(50));
+    handler.stop();
+    let returned = finish(running, Duration::from_secs(3));
+    drop(conn);
+    let ov = overlaps.load(Ordering::SeqCst);
+    let n = count.load(Ordering::SeqCst);
+    let ok = ov == 0 && returned.is_some();
+    (
+        format!("node serialc {}", mode.name()),
+        format!("overlaps={}", ov),
+        if ok { "ok".into() } else { format!("FAIL overlaps={} invocations={} returned={:?}", ov, n, returned) },
+        format!("serial,cached,{}{}", mode.name(), if n >= 8 { ",both-threads" } else { "" }),
+    )
+}
+
 // -------------------------------------------------------------------------------------------------
 // C09
 
@@ -257,6 +308,17 @@ fn run_stop(mode: Mode, scenario: &str, param: u64) -> (String, String, String, 
             "contended" => {
                 if is_sig && idx == 0 {
                     std::thread::sleep(Duration::from_millis(60)); // the network thread queues up on the lock
+                    true
+                }
+                else {
+                    false
+                }
+            }
+            "contnet" => {
+                // the mirror image: stop() inside a network callback that sleeps while signals keep arriving,
+                // so that the signal thread holds a dequeued signal and queues up on the callback lock
+                if !is_sig && idx == 0 {
+                    std::thread::sleep(Duration::from_millis(60));
                     true
                 }
                 else {
@@ -523,15 +585,17 @@ fn main() {
                         let (c, i, o, t) = run_serial(m, d);
                         emit(&mut out, &c, &i, &o, &t);
                     }
+                    let (c, i, o, t) = run_serial_cached(m);
+                    emit(&mut out, &c, &i, &o, &t);
                 }
             }
         }
         "gen-stop" => {
             let thorough = arg(2) == "thorough";
             for m in modes {
-                let mut list: Vec<(&str, u64)> = vec![("before", 0), ("before", 1), ("before", 3), ("innet", 0), ("innet", 2), ("insig", 0), ("insig", 3), ("contended", 0), ("replay", 5), ("external", 1), ("storm", 0)];
+                let mut list: Vec<(&str, u64)> = vec![("before", 0), ("before", 1), ("before", 3), ("innet", 0), ("innet", 2), ("insig", 0), ("insig", 3), ("contended", 0), ("replay", 5), ("external", 1), ("storm", 0), ("contnet", 0)];
                 if thorough {
-                    list.extend([("innet", 1), ("innet", 5), ("insig", 1), ("insig", 7), ("replay", 3), ("replay", 9), ("external", 0), ("external", 3), ("external", 6), ("contended", 1), ("storm", 1), ("storm", 2)]);
+                    list.extend([("innet", 1), ("innet", 5), ("insig", 1), ("insig", 7), ("replay", 3), ("replay", 9), ("external", 0), ("external", 3), ("external", 6), ("contended", 1), ("storm", 1), ("storm", 2), ("contnet", 1)]);
                 }
                 for (sc, p) in list {
                     let (c, i, o, t) = run_stop(m, sc, p);
@@ -566,6 +630,7 @@ fn main() {
             for line in stdin_lines() {
                 let ws: Vec<&str> = line.split(' ').collect();
                 let row = match ws.as_slice() {
+                    ["node", "serialc", m] => run_serial_cached(parse_mode(m)),
                     ["node", "serial", m, d] => run_serial(parse_mode(m), d.parse().unwrap_or(0)),
                     ["node", "stop", m, sc, p] => run_stop(parse_mode(m), sc, p.parse().unwrap_or(0)),
                     ["node", "tcp", m, late] => run_tcp_late(parse_mode(m), late.parse().unwrap_or(0)),
